@@ -1,6 +1,7 @@
 """C01 - every partitioner returns a true partition into the requested number of bins."""
 import random
 from runtime import harness as H
+from props import _ded as D
 from runtime import t3_part as T
 from runtime.common import CG_SWITCHES
 
@@ -46,5 +47,7 @@ def t3(rep, tier, seed):
 
 def run(rep, tier, seed):
     rep.level = "exploration"
-    rep.assume("A1", "A4", "A6", "A8")
+    rep.assume("A1", "A2", "A4", "A5", "A6", "A8")
+    D.run_contracts(rep, "C01", D.PART_HEUR, tier, with_lemmas=False)
     t3(rep, tier, seed)
+    D.link_falsifier(rep)
